@@ -11,7 +11,7 @@ import vf, args
 
 QUICK = {
     "npm": ["ManifestWrite-npm-names-quick.cfg", "ManifestWrite-npm-conflicts-quick.cfg"],
-    "maven": ["ManifestWrite-mvn-forms-quick.cfg", "ManifestWrite-mvn-scopes-quick.cfg"],
+    "maven": ["ManifestWrite-mvn-forms-quick.cfg", "ManifestWrite-mvn-scopes-quick.cfg", "ManifestWrite-mvn-layouts-quick.cfg"],
 }
 THOROUGH = {
     "npm": ["ManifestWrite-npm-names.cfg", "ManifestWrite-npm-conflicts.cfg"],
@@ -24,6 +24,37 @@ FINDINGS = {
     "C13-shadowed-property-definition": "pom.xml Write patches the top-level definition of a property although the definition in force for the requirement is another one (active-by-default profile / child overriding the parent): the requirement keeps its version and Write returns nil",
     "C13-comment-inside-value-dropped": "pom.xml Write drops a comment that stands inside a <version> element even when the value is not updated",
 }
+
+
+COMMENT = "C13-comment-inside-value-dropped"
+# finding id -> deviation constant of ManifestWrite.tla (TRUE while the finding is not listed as fixed)
+DEV = {"C13-same-key-first-match": "DevFirstMatch", "C13-shared-property-leak": "DevLeak",
+       "C13-parent-property-not-updated": "DevPropLoc", "C13-shadowed-property-definition": "DevPropLoc"}
+
+
+def fixed_findings():
+    """ids of C13 findings that known_findings.json lists as fixed: their deviation is switched off in the
+    as-built transcription, so the repaired behaviour is what the check expects"""
+    try:
+        d = json.load(open(os.path.join(vf.VERIF, "known_findings.json")))
+    except Exception:
+        return set()
+    extra = {x for x in os.environ.get("C13_FIXED", "").split(",") if x}    # development aid (trying patches in a scratch worktree)
+    return {k["id"] for k in d.get("findings", []) if k.get("property") == "C13" and k.get("status") == "fixed"} | extra
+
+
+def cfg_with_devs(cfg, fixed, tmpd):
+    """copy of spec/cfg/<cfg> with the deviation constants of fixed findings set to FALSE (DevPropLoc belongs
+    to two findings: it is FALSE only if both are fixed)"""
+    txt = open(os.path.join(vf.SPEC, "cfg", cfg)).read()
+    for const in sorted(set(DEV.values())):
+        ids = [i for i, c in DEV.items() if c == const]
+        val = "FALSE" if all(i in fixed for i in ids) else "TRUE"
+        txt = txt.replace("%s = TRUE" % const, "%s = %s" % (const, val))
+    out = os.path.join(tmpd, cfg)
+    with open(out, "w") as f:
+        f.write(txt)
+    return out, txt
 
 
 def sort_reqs(rs):
@@ -102,6 +133,8 @@ def judge_maven(c, o, which="expect"):
         bad.append("ADDED a dependency was inserted although none was requested: %s" % (o["added"],))
     if not o["preserved"]:
         bad.append("NOT-PRESERVED tokens outside the recorded values changed: " + o["diff"])
+    if o.get("lost"):
+        bad.append("COMMENT-LOST tokens inside the values %s were dropped although their text is unchanged" % o["lost"])
     for k in sorted(o["changed"]):
         if k not in exp["allowed"]:
             bad.append("UNADDRESSED-VALUE value %s was rewritten to %r but no update addresses it" % (k, o["changed"][k]))
@@ -112,10 +145,20 @@ def judge_maven(c, o, which="expect"):
     return bad
 
 
-def matches_asbuilt(c, o):
+def predicted_lost(c, comment_fixed):
+    """as built, writeDependency re-encodes every <version> it does not rewrite and drops a comment inside it"""
+    if comment_fixed or c["layout"]["comments"] != "leaf":
+        return []
+    changed = {x["id"] for x in c["expect_asbuilt"]["changed"]}
+    return sorted("e%d" % e["id"] for e in c["entries"] if e["v"] and "e%d" % e["id"] not in changed)
+
+
+def matches_asbuilt(c, o, comment_fixed):
     """the observation is exactly what the as-built transcription predicts (used only to attribute a
     mismatch to the open findings of the scenario)"""
     ab = c["expect_asbuilt"]
+    if sorted(o.get("lost") or []) != predicted_lost(c, comment_fixed):
+        return False
     if o["panic"] or o["err"] or not o["written"]:
         return False
     if c["add"]:
@@ -156,27 +199,32 @@ def main():
     a = args.parse()
     ck = vf.Check("C13", "model_checking", tier=a.tier, seed=a.seed)
     cases = []
+    fixed = fixed_findings()
+    comment_fixed = COMMENT in fixed
+    import tempfile, shutil
+    cfgdir = tempfile.mkdtemp(prefix="c13cfg-")
     if a.replay:
         rec = json.load(open(a.replay))["replay"]
         cases = [rec["case"]]
     else:
         ecos = [e for e in ("npm", "maven") if os.environ.get("C13_ONLY", e) == e]   # development aid
         for eco in ecos:
-            s = vf.tlc("ManifestWrite", "ManifestWrite-%s-sanity.cfg" % eco, workers=2, collect=False, timeout=120)
+            s = vf.tlc("ManifestWrite", cfg_with_devs("ManifestWrite-%s-sanity.cfg" % eco, fixed, cfgdir)[0], workers=2, collect=False, timeout=120)
             if s.violated != "Sanity":
                 raise vf.NotAVerdict("sanity invariant not violated for %s: vacuous model" % eco)
         cfgs = THOROUGH if ck.thorough() else QUICK
         for eco in ecos:
             for cfg in cfgs[eco]:
-                r = vf.require_ok(vf.tlc("ManifestWrite", cfg, timeout=1500), cfg)
-                txt = open(os.path.join(vf.SPEC, "cfg", cfg)).read().split("SPECIFICATION")[0].strip()
-                ck.add_tlc(cfg, r, txt)
+                cfgp, txt = cfg_with_devs(cfg, fixed, cfgdir)
+                r = vf.require_ok(vf.tlc("ManifestWrite", cfgp, timeout=1500), cfg)
+                ck.add_tlc(cfg, r, txt.split("SPECIFICATION")[0].strip())
                 for c in r.cases:
                     c["cfg"] = cfg
                 cases += r.cases
     if os.path.isdir("/dev/shm") and os.access("/dev/shm", os.W_OK):
         import tempfile
         tempfile.tempdir = "/dev/shm"      # scratch of the harness: ~50k small files, 6x faster on tmpfs; removed by run_harness
+    shutil.rmtree(cfgdir, ignore_errors=True)
     obs = vf.run_harness("vmanifest", "write", cases, timeout=1500)
     if len(obs) != len(cases):
         raise vf.NotAVerdict("harness returned %d of %d cases" % (len(obs), len(cases)))
@@ -206,13 +254,10 @@ def main():
         bad = judge_maven(c, o)
         if not bad:
             continue
-        if c["layout"]["comments"] == "leaf" and not o["panic"] and not o["err"]:
-            # comment inside a value element: attributed only if that is the sole problem
-            if all("tokens inside value" in b for b in bad):
-                known["C13-comment-inside-value-dropped"].append((size(c), bad, c, o))
-                continue
-        devs = c.get("devs") or []
-        if devs and matches_asbuilt(c, o):
+        devs = list(c.get("devs") or [])
+        if predicted_lost(c, comment_fixed):
+            devs.append(COMMENT)
+        if devs and matches_asbuilt(c, o, comment_fixed):
             for d in devs:
                 known[d].append((size(c), bad, c, o))
             continue
@@ -235,6 +280,7 @@ def main():
     ck.cov["distinct_nontrivial"] = nontrivial
     ck.cov["traces_validated_against_impl"] = len(cases)
     ck.cov["cases_replayed"] = dict(per)
+    ck.cov["deviation_constants"] = {c: ("FALSE" if all(i in fixed for i in DEV if DEV[i] == c) else "TRUE") for c in sorted(set(DEV.values()))}
     ck.cov["noop_cases"] = noop
     ck.cov["noop_cases_byte_identical"] = byte_equal_noop
     ck.cov["exhaustive"] = True
